@@ -534,7 +534,7 @@ pub fn property() -> Property {
                 name: "histories",
                 plan: |t| match t {
                     Tier::Quick => Plan::Random { cases: 60_000, max_len: 300 },
-                    Tier::Thorough => Plan::Random { cases: 300_000, max_len: 400 },
+                    Tier::Thorough => Plan::Random { cases: 900_000, max_len: 400 },
                 },
                 case: case_q,
                 min_classes: &[("cp-onto-existing-file", 500), ("mv-onto-existing-file", 300), ("mv-into-directory", 300), ("rm-non-empty-directory-without-r", 300)],
@@ -543,7 +543,7 @@ pub fn property() -> Property {
                 name: "long-histories",
                 plan: |t| match t {
                     Tier::Quick => Plan::Skip,
-                    Tier::Thorough => Plan::Random { cases: 50_000, max_len: 900 },
+                    Tier::Thorough => Plan::Random { cases: 150_000, max_len: 900 },
                 },
                 case: case_t,
                 min_classes: &[],
